@@ -383,6 +383,15 @@ def classify(line, impl, spec, model):
     if (" S:remove_dims " in line and line.rstrip().endswith("I:1") and bad
             and all((fi.get(k) == "trap-exception" and k.split(".")[0] in ("arr", "tup", "utup", "raw", "cl")) or k.split(".")[0] == "svt" for k in bad)):
         return "remove_dims-runtime-keepdims-true-fixed-size-shape"
-    if bad and all(("cl" in k.split(".")[0].split("-")) for k in bad):
+    def clamped(a, b):
+        """a is b with some extents CLAMPED to a smaller value (same length, 1 <= a[i] <= b[i], a != b): the signature of the
+        known defect (a result stored in clipped integers inherited from an operand); a larger value, another length, an
+        accepted request that must be rejected or a rejection is NOT this class"""
+        try:
+            x = [int(v) for v in a.split(",")]; y = [int(v) for v in b.split(",")]
+        except ValueError:
+            return False
+        return len(x) == len(y) and x != y and all(1 <= p <= q for p, q in zip(x, y))
+    if bad and all(("cl" in k.split(".")[0].split("-")) and clamped(fi.get(k, ""), fs[k]) for k in bad):
         return "clipped-kind-clamps:" + line.split(" ")[2][2:]
     return None
